@@ -157,6 +157,11 @@ def run_case(case: dict) -> dict:
         tol = rng.choice([1e-4, 1e-6, 1e-8])
         rel = rng.random() < 0.3
         sim = Simulator(model)
+        if kind in ("linear_growth", "accumulation") and rng.random() < 0.5:
+            # the search starts from an empty system (every variable exactly 0): it still fills without bound
+            sim = Simulator(model, y0={v: 0.0 for v in net.variables})
+            rel = rng.random() < 0.7
+            counters["nosteady:start_from_zeros" + ("(relative norm)" if rel else "")] = 1
         if rng.random() < 0.4:
             # a successful time course first: the failed search must still be what the result reports
             sim.simulate(rng.choice([round(rng.uniform(0.25, 4.0), 3), 100.0, 200.0]), steps=rng.randint(1, 4))
